@@ -1,5 +1,5 @@
 """C17 — database loads round-trip and are all-or-nothing when the source fails."""
-import os, sqlite3, tempfile, shutil, itertools
+import gc, os, sqlite3, tempfile, shutil, itertools
 from .. import lean, proto, gen, util
 
 REQUIRED = ['Petl.C17.' + n for n in (
@@ -171,6 +171,55 @@ def run(ctx):
                               'after the call a fresh connection does not see what the property prescribes', case)
             elif handle != 'filename' and oplog != sp_ops:
                 ctx.corr_fail(fn.__name__, 'DB-API call sequence differs from the model while the committed state is right', case)
+        # ---- the source pipeline itself reads from the connection that is being loaded (staging table -> target):
+        # a failing step must still leave the target as it was
+        for nrows in (2, 4):
+            for fail in [None] + list(range(1, nrows + 1)):
+                for trunc in (True, False):
+                    for commit in (True, False):
+                        for handle in ('connection', 'cursor', 'mkcurs'):
+                            path = os.path.join(tmpd, 'stage.sqlite')
+                            if os.path.exists(path):
+                                os.unlink(path)
+                            prior = [(100, 'p0')]
+                            rows = [(i, 'r%d' % i) for i in range(nrows)]
+                            c0 = sqlite3.connect(path)
+                            c0.execute('CREATE TABLE t (a, b)')
+                            c0.execute('CREATE TABLE s (a, b)')
+                            c0.executemany('INSERT INTO t VALUES (?, ?)', prior)
+                            c0.executemany('INSERT INTO s VALUES (?, ?)', rows)
+                            c0.commit()
+                            c0.close()
+                            conn = sqlite3.connect(path)
+
+                            def step(v, fail=fail):
+                                if fail is not None and v == fail - 1:
+                                    raise Boom()
+                                return v
+                            src = etl.convert(etl.fromdb(conn, 'SELECT a, b FROM s ORDER BY rowid'), 'a', step, failonerror=True)
+                            dbo = conn if handle == 'connection' else (conn.cursor() if handle == 'cursor' else (lambda conn=conn: conn.cursor()))
+                            fn = etl.todb if trunc else etl.appenddb
+                            raised = None
+                            try:
+                                fn(src, dbo, 't', commit=commit)
+                            except Boom:
+                                raised = 'Boom'
+                            except Exception as e:   # noqa
+                                raised = type(e).__name__
+                            del src
+                            gc.collect()
+                            seen = fresh_contents(path)
+                            conn.close()
+                            want = prior if (fail is not None or not commit) else ((rows if trunc else prior + rows))
+                            ctx.case(('staging', nrows, fail, trunc, commit, handle))
+                            ctx.count('source-reads-same-connection')
+                            case = {'op': fn.__name__, 'handle': handle, 'commit': commit, 'prior': repr(prior), 'staging_rows': repr(rows),
+                                    'fail_at_row': fail, 'raised': raised, 'fresh_connection_sees': repr(seen), 'expected': repr(want)}
+                            if (raised == 'Boom') != (fail is not None) or raised not in (None, 'Boom'):
+                                ctx.spec_fail('%s|%s|staging|unexpected-exception' % (fn.__name__, handle), 'the load raised %r' % raised, case)
+                            elif seen != want:
+                                ctx.spec_fail('%s|%s|staging|%s' % (fn.__name__, handle, 'partial-or-emptied' if fail is not None else 'wrong-state'),
+                                              'source read through fromdb on the same connection: a fresh connection does not see what the property prescribes', case)
     finally:
         shutil.rmtree(tmpd, ignore_errors=True)
     ctx.exhaustive = True
